@@ -50,13 +50,15 @@ type FaultClient struct {
 	N         int
 	AfterCall func(Call)
 	Counts    map[string]int
+	// Only, if non-empty, restricts fault consumption to the named op kind ("open", "write", "list", "delete").
+	Only string
 }
 
 func (c *FaultClient) next(op string) Fault {
 	if c.Counts == nil {
 		c.Counts = map[string]int{}
 	}
-	if !c.Enabled || len(c.Plan) == 0 {
+	if !c.Enabled || len(c.Plan) == 0 || (c.Only != "" && c.Only != op) {
 		return Fault{}
 	}
 	f := c.Plan[c.N%len(c.Plan)]
@@ -168,6 +170,13 @@ func (r *faultReader) Read(p []byte) (int, error) {
 	}
 	n, err := r.rc.Read(p)
 	r.left -= n
+	if err == nil && r.left <= 0 {
+		// deliver the last bytes together with the failure, as network readers may
+		if r.eof {
+			return n, io.EOF
+		}
+		return n, ErrInjected
+	}
 	return n, err
 }
 func (r *faultReader) Close() error { return r.rc.Close() }
